@@ -50,6 +50,26 @@ claim("C16", "exploration",
       "Trusted: Python Fraction arithmetic.",
       "DESIGN.md section 3 C16")
 
+claim("C10", "exploration",
+      "runtime contracts on the real EFT functions with exact integer oracle; float16 pairs exhaustive (thorough)",
+      "fpa.add_2sum/split_veltkamp/mul_dekker carry recording contracts (so calls from apmath.two_sum/two_prod/split and from mul_dekker into the "
+      "splitter are observed too); the utils.* and algorithms.py copies are judged at their own boundary. Oracle: exact sums/products as integers in "
+      "units of the smallest subnormal, RN by integer rounding, significand widths by bit counting. Thorough enumerates all 4.03e9 finite float16 "
+      "pairs for 2Sum, Fast2Sum and Dekker(scale) (other option sets on a quarter of the blocks) and all finite float16 for the splitter; "
+      "float32/float64 use relation generators (ties, exponent gaps p-2..p+2, cancellation, short mantissas, subnormal/overflow edges).",
+      "Trusted: IEEE RN-even hardware arithmetic in numpy; vf.exact (self-tested against Fraction). Domain predicates are the documented ones, "
+      "computed independently (no overflow in intermediates via magnitude bound, error term representable).",
+      "DESIGN.md section 3 C10")
+
+claim("C19", "exploration",
+      "runtime contract on real_samples + array laws on the float lattice; product generators vs Cartesian product",
+      "A parameter fuzzer (sizes 6..1000 and 1e5/1e6, three dtypes, bounds of same sign / mixed sign / +-0 / subnormal / adjacent, all flags) calls the "
+      "real generators; a recording contract on utils.real_samples (also reached through the pair/triple/complex generators) checks dtype, "
+      "monotonicity, bounds and requested special values, absence of subnormals/NaN, and ULP-uniform spacing per sign; pair/triple/complex/"
+      "complex-pair outputs are compared element for element with the Cartesian product of the 1-D calls.",
+      "Trusted: vf.exact ordinals. For unique=False (repeats allowed by design) order is not judged.",
+      "DESIGN.md section 3 C19")
+
 SOURCE_COMMITS = []
 
 
